@@ -653,7 +653,9 @@ class AsyncClient(base_client.BaseClient):
                 self.queue.task_done()
                 packets = []
             else:
-                while True:
+                # do not batch more packets than the server accepts in one
+                # payload, the rest is sent in the next iteration
+                while len(packets) < payload.Payload.max_decode_packets:
                     try:
                         packets.append(self.queue.get_nowait())
                     except self.queue.Empty:
